@@ -12,7 +12,9 @@ def main():
     only = [a for a in sys.argv[1:] if not a.startswith("--")]
     claimed = [c["property_id"] for c in json.load(open(os.path.join(VERIF, "MANIFEST.json")))["checks"]]
     out_path = os.path.join(VERIF, "build", "seed_matrix.json")
-    matrix = json.load(open(out_path)) if os.path.exists(out_path) else {}
+    state_path = os.path.join(VERIF, "seeded", "matrix_state.json")     # committed: lets a snapshot run resume
+    matrix = json.load(open(out_path)) if os.path.exists(out_path) else (
+        json.load(open(state_path)) if os.path.exists(state_path) else {})
     ev = os.path.join(VERIF, "evidence")
     bak = os.path.join(VERIF, "build", "evidence_backup_matrix")
     shutil.rmtree(bak, ignore_errors=True)
@@ -44,6 +46,7 @@ def main():
                 with lock:
                     matrix[name] = dict(row)
                     json.dump(matrix, open(out_path, "w"), indent=1)
+                    json.dump(matrix, open(state_path, "w"), indent=1)
         finally:
             sh("git -C /repo worktree remove --force %s" % wt)
 
